@@ -16,7 +16,7 @@ PROPS = {}
 
 PROPS["C02"] = dict(
     level="proof",
-    verus=["c02_anchor", "c02_dispatch", "c02_matchers"],
+    verus=["c02_anchor", "c02_dispatch", "c02_matchers", "c02_regex"],
     labels=["C02."] + MASK,
     kani=[],
     witness=["c02_remainder.rs"],
@@ -24,13 +24,15 @@ PROPS["C02"] = dict(
              "UTF-8 facts stated as axioms: injectivity, both ends of a string are character boundaries, an occurrence of one string in another ends on a character boundary",
              "vstd's prophetic iterator model for ExactSizeIterator::len and Iterator::any over the rule's pattern iterator",
              "in the dispatch unit the per-shape matchers are uninterpreted; their bodies are proved in unit c02_matchers against their own contracts (the two units are not composed mechanically)",
-             "RegexManager::matches (regex cache + regex crate) and the translation of '*' and '^' to a regex (compile_regex) are not under contract: rx_spec is uninterpreted",
+             "RegexManager::matches (regex cache keyed by rule id) and the regex crate are not under contract: rx_spec is uninterpreted in the matcher unit",
+             "compile_regex (unit c02_regex): the four Lazy<Regex> substitutions (their pattern texts pinned token for token), str::replace unescaping and the regex builders are uninterpreted; proved is the wiring only: order of the substitutions, placement of the `|` anchors outside the translated body, empty pattern => match-all, one pattern => regex / several => regex set of exactly those patterns, Unicode mode off; format!(\"{}{}{}\") = concatenation (axiom for that literal); the pattern iterator materialised (R5)",
              "Request well-formedness: the request hostname is a slice of the request URL (url_parser; preparsed() callers)"],
     assumptions=["machine integers are modelled exactly by Verus (overflow checked)"],
     level_text="Verus proves, for all strings, that hostname anchoring holds exactly at label-aligned occurrences (sound and complete), "
                "that the anchor/regex flag combination selects the matcher the pattern syntax denotes, the slicing safety and result of the "
                "remainder-after-hostname helper, and the bodies of all nine per-shape matchers over any pattern iterator: plain = substring, '|p' = prefix, 'p|' = suffix, '|p|' = equality, "
-               "the '||host' shapes = label-aligned anchoring plus the remainder predicate on the text after the host (exactly, whenever the host text occurs once in the URL)",
+               "the '||host' shapes = label-aligned anchoring plus the remainder predicate on the text after the host (exactly, whenever the host text occurs once in the URL); "
+               "and that a '*' / '^' pattern is compiled from escape -> '*' -> '^' substitutions applied to the pattern body alone with the '|' anchors added around the result",
     level_note="regex semantics are outside the contracts; known finding (witness inputs replayed on the real crate): where the rule's host text occurs in the URL before its label-aligned occurrence, the remainder is taken after the wrong occurrence",
     design_ref="DESIGN.md section 4, C02",
 )
@@ -176,8 +178,8 @@ PROPS["C18"] = dict(
 
 PROPS["C05"] = dict(
     level="proof",
-    verus=["c05_optimizer", "c04_partition"],
-    labels=["C05."] + MASK,
+    verus=["c05_optimizer", "c04_partition", "c02_regex"],
+    labels=["C05.", "C02.regex."] + MASK,
     kani=[],
     trusted=["core::fmt: for a fixed format string the key is an injective function of the formatted arguments (R6 lift of format!)",
              "Iterator::any/all over a slice (vf_iter shim)", "raw_line join (debug text only)",
